@@ -559,7 +559,19 @@ func (r *hdRun) exec(o *hdOp) string {
 			payload["payload"] = map[string]interface{}{"candidate": map[string]interface{}{"candidate": "c"}}
 		}
 		data, _ := json.Marshal(map[string]interface{}{"id": "m", "type": "message", "message": map[string]interface{}{"recipient": rec, "data": payload}})
-		s.sendSync(c, data)
+		if s.mcu.gated && o.Mk == "offer" {
+			// an offer is handled in the connection's own goroutine: with a gated media server the
+			// connection stays busy until the creation completes, so no marker can be answered
+			before := s.mcu.created()
+			if err := c.send(data); err == nil {
+				deadline := time.Now().Add(2 * time.Second)
+				for time.Now().Before(deadline) && s.mcu.created() == before && !c.hasId("m") {
+					time.Sleep(200 * time.Microsecond)
+				}
+			}
+		} else {
+			s.sendSync(c, data)
+		}
 		st := map[string]int{"audio": 0, "video": 1, "screen": 2}[o.Stream]
 		mk := map[string]int{"offer": 0, "requestoffer": 1, "candidate": 2, "sendoffer": 3, "answer": 4, "unshareScreen": 5, "selectStream": 6, "endOfCandidates": 7}[o.Mk]
 		return fmt.Sprintf("OMedia %d %s %d %d %d", o.C, rterm, mk, st, o.Media)
@@ -1008,8 +1020,20 @@ func hdRunCase(t *testing.T, c *hdCase) (string, *hdRun) {
 	sys.mcu.gated = c.Gated
 	r := &hdRun{sys: sys, pub: map[int]string{}, priv: map[int]string{}, vpub: map[string]string{}}
 	var steps []string
-	for i := range c.Ops {
-		o := &c.Ops[i]
+	var ops []hdOp
+	for _, o := range c.Ops {
+		ops = append(ops, o)
+	}
+	for i := 0; i < len(ops); i++ {
+		o := &ops[i]
+		if o.K == "mcuflush" {
+			// complete every pending creation, oldest first, one step each
+			if sys.mcu.firstPending(0) != 0 {
+				rest := append([]hdOp{{K: "mcudone", Res: "ok"}, {K: "mcuflush"}}, ops[i+1:]...)
+				ops = append(ops[:i+1:i+1], rest...)
+			}
+			continue
+		}
 		term := r.exec(o)
 		sys.settle()
 		obs := r.observe()
